@@ -17,6 +17,7 @@ namespace sim
       MODE_UNGUARDED,  // run on SET_MEM, and again with every limit wrapper replaced (C18)
       MODE_TREE,       // parse_tree::parse on SET_TREE
       MODE_COVERAGE,   // coverage() on SET_COV
+      MODE_IO,         // fixed grammar (Case::prog) through a stock input class (`set` = IoClass), reference = memory_input
    };
 
    struct Job
